@@ -425,7 +425,8 @@ def QCall (q : List Nat) : Sys → Prop
   | .xFstat | .xClose | .xChmod _ | .xUtimens _ | .dClose | .dOpenCwd | .dLstat _ | .dStat _ => True
   | .mkdir p _ | .unlink p | .rmdir p | .openCreat p _ | .mkfifo p _ | .utimens p _ | .lchmod p _
   | .openTrunc p | .xOpen p _ => Fam q p
-  | .mkstemp p _ | .renameTmp p | .unlinkTmp p | .symlink _ p => p = q ∧ Fam q q ∧ Fam q (tmpName q)
+  | .mkstemp p _ | .unlinkTmp p => Fam q (tmpName p)
+  | .renameTmp p | .symlink _ p => p = q ∧ Fam q q ∧ Fam q (tmpName q)
   | .link _ _ | .chmod _ _ | .dUnlink _ | .dOpenDir _ => False
 
 theorem sem_exec {c : Ctx} {q : List Nat} {pr : Proc} (hS : Sem c q pr) (s : Sys) (hq : QCall q s) :
@@ -463,9 +464,9 @@ theorem sem_exec {c : Ctx} {q : List Nat} {pr : Proc} (hS : Sem c q pr) (s : Sys
   | lchmod p m => exact sem_exec_lchmod hS hq m
   | openTrunc p => exact sem_exec_openTrunc hS hq
   | xOpen p b => exact sem_exec_xOpen hS hq b
-  | mkstemp p m => obtain ⟨rfl, _, h3⟩ := hq; exact sem_exec_mkstemp hS h3 m
+  | mkstemp p m => exact sem_exec_mkstemp hS hq m
   | renameTmp p => obtain ⟨rfl, h2, h3⟩ := hq; exact sem_exec_renameTmp hS h2 h3
-  | unlinkTmp p => obtain ⟨rfl, _, h3⟩ := hq; exact sem_doUnlink hS h3
+  | unlinkTmp p => exact sem_doUnlink hS hq
   | symlink tg p => obtain ⟨rfl, h2, _⟩ := hq; exact sem_exec_symlink hS h2 tg
   | link _ _ => exact absurd hq (by simp [QCall])
   | chmod _ _ => exact absurd hq (by simp [QCall])
